@@ -128,6 +128,21 @@ pub fn run_script_any<T, I: Iterator<Item = T>>(
     out
 }
 
+/// Pre-flight for scripts that rely on the iterator ending (counts larger than what is left, `count`, `last`,
+/// `fold`): plain `next()` calls, at most `limit + 1` of them.  `false` = the iterator yields more than `limit`
+/// items, i.e. it does not end where the model says; the script is then not run (a default `nth` / `count` would
+/// not return) and the caller reports the violation.
+pub fn ends_within<T, I: Iterator<Item = T>>(mut it: I, limit: u128) -> bool {
+    let mut c: u128 = 0;
+    while it.next().is_some() {
+        c += 1;
+        if c > limit {
+            return false;
+        }
+    }
+    true
+}
+
 /// What the model of a sequence has to answer.
 pub trait Position: Clone {
     fn cur(&self) -> Option<Vec<u64>>;
